@@ -58,7 +58,7 @@ def KNOWN_D18(sub, case, failure):
     # the unchanged tree is right there; the seth hill measure takes its volumetric part from pow_symm as well
 
 
-KNOWN_MATCH = {'D1': KNOWN_D1, 'D18': KNOWN_D18}
+KNOWN_MATCH = {'D1': KNOWN_D1, 'D18': KNOWN_D18, 'D16': c09.KNOWN_D16}      # D16: same NaN of the rate-sensitive update as in C09
 
 
 def tensor_function_gap(cfg, He, state):
@@ -190,10 +190,13 @@ def check(case):
         yielding = False
     W0, P, CdH = [onp.asarray(o) for o in C['point'](np.array(He), np.array(state), dt, pv, np.array(dH))]
     if not (onp.isfinite(W0) and onp.all(onp.isfinite(P)) and onp.all(onp.isfinite(CdH))):
-        f = Failure('finite', '%s: energy / stress / tangent not finite' % case['model'], model=case['model'])
+        f = Failure('finite', '%s: energy / stress / tangent not finite' % case['model'], model=case['model'], H=He.tolist(), dH=dH.tolist(),
+                    state=onp.asarray(state).tolist(), dt=float(dt), nonfinite=[bool(onp.isfinite(W0)), bool(onp.all(onp.isfinite(P))), bool(onp.all(onp.isfinite(CdH)))])
         with jax.disable_jit():
             oe = C['rawpoint'](np.array(He), np.array(state), dt, pv, np.array(dH))
         f.data['fusion_only'] = bool(all(onp.all(onp.isfinite(onp.asarray(o))) for o in oe))
+        if cfg.family == 'j2':
+            f.data.update(c09.d16_diagnostics(cfg, hard, pr['mu'], He, onp.asarray(state), dt))
         return Result(f, nontrivial=True)
     fd1, fd2, fdg = [], [], []
     for h in hs:
